@@ -30,7 +30,7 @@ func init() {
 		},
 		Batch: func(t string) int { return 35 },
 		Floors: []string{"snapshots_compared", "typed_values_retained", "cloned_rows_retained", "uncloned_rows_checked", "writer_inputs_checked", "activity_read_more", "activity_seek", "activity_reset", "activity_close", "activity_other_reader",
-			"activity_writer_churn", "activity_gc", "batch_slice_reused", "page_boundary_crossed"},
+			"activity_writer_churn", "activity_gc", "batch_slice_reused", "page_boundary_crossed", "typed_source_buffer", "activity_source_buffer_refilled", "row_writer_wrappers_checked", "reader_FilterRowReader", "reader_TransformRowReader"},
 		Rule: "case = (file of a catalogue type with byte-array / FLBA / int96 / dictionary / nested list columns, small pages; history: Read a batch of Go values (the batch slice is reused, rows are retained by shallow copy like a caller would) or ReadRows; deep snapshot; " +
 			"then PRNG later activity: more reads, SeekToRow, Reset, Close, other readers on the same and other files, writer churn through the shared pools, runtime.GC; compare). The verif build overwrites pooled memory on release (0xDB), so a dangling alias changes the retained value deterministically. " +
 			"Writer side: rows and slices passed to Write/WriteRows/SortingWriter/WriteRowGroup are snapshotted before and compared after. Distinct = descriptor hash; non-trivial = at least one later activity between snapshot and comparison",
@@ -148,6 +148,19 @@ func runC16(c *Ctx) {
 		switch mode {
 		case 0:
 			gr := te.ops.NewReader(f)
+			// a third of the time the source is an in-memory buffer row group, which its owner resets and refills afterwards
+			var srcBuf gbuffer
+			if r.P(33) {
+				srcBuf = te.ops.NewBuffer()
+				if _, err := te.ops.BufferWrite(srcBuf, rows); err != nil {
+					c.Fail("harness.buffer", nil, "%v", err)
+					return
+				}
+				gr.Close()
+				gr = te.ops.NewRowGroupReader(srcBuf)
+				c.D("source", "buffer")
+				c.Obs("typed_source_buffer", 1)
+			}
 			batch := te.ops.NewRows(gen.Pick(r, []int{1, 7, 40, 100}))
 			retained := reflect.MakeSlice(batch.Type(), 0, n)
 			var snaps []reflect.Value
@@ -210,6 +223,14 @@ func runC16(c *Ctx) {
 				gr.Close()
 				acts = append(acts, "close")
 				c.Obs("activity_close", 1)
+			}
+			if srcBuf != nil {
+				srcBuf.Reset()
+				te.ops.BufferWrite(srcBuf, other)
+				rowGroupRows(srcBuf, 64)
+				srcBuf.Reset()
+				acts = append(acts, "source_buffer_reset_refill")
+				c.Obs("activity_source_buffer_refilled", 1)
 			}
 			churn(2)
 			churn(0)
